@@ -38,8 +38,8 @@ def tlc_project(p: T.Optional[T.Dict[str, T.Any]]) -> T.Dict[str, T.Any]:
     return {'name': p['name'], 'lang': p['lang'], 'layout': p['layout'], 'deflib': p['deflib'], 'targets': ts, 'tests': xs,
             'conf': [dict(c) for c in p.get('conf', [])],
             'options': [{'name': o['name'], 'type': o['type'], 'sp': o['sp']} for o in p.get('options', [])],
-            'installs': [{k: it[k] for k in ('kind', 'subdir', 'sp', 'files', 'install_dir', 'tag', 'rename')}
-                         for it in p.get('installs', [])]}
+            'installs': [dict({k: it[k] for k in ('kind', 'subdir', 'sp', 'files', 'install_dir', 'tag', 'rename')},
+                              strip=bool(it.get('strip', False))) for it in p.get('installs', [])]}
 
 
 def rel_to(path: str, base: str) -> str:
